@@ -25,6 +25,7 @@ func init() {
 }
 
 type capture struct {
+	rawLen  int
 	headers int
 	err     error
 	parsed  int
@@ -152,7 +153,7 @@ func runC20(r *core.Run) {
 	}
 	// handler
 	hook := func(raw []byte, s *stack.Snapshot, err error) {
-		c := &capture{headers: len(rawHeaders(raw)), err: err}
+		c := &capture{rawLen: len(raw), headers: len(rawHeaders(raw)), err: err}
 		if s != nil {
 			c.parsed = len(s.Goroutines)
 		}
@@ -190,6 +191,7 @@ func runC20(r *core.Run) {
 		}
 		if c != nil {
 			w.Header().Set("X-Verif-Headers", strconv.Itoa(c.headers))
+			w.Header().Set("X-Verif-RawLen", strconv.Itoa(c.rawLen))
 			w.Header().Set("X-Verif-Parsed", strconv.Itoa(c.parsed))
 			if c.err != nil {
 				w.Header().Set("X-Verif-Err", c.err.Error())
@@ -299,21 +301,24 @@ func runC20(r *core.Run) {
 		park := make(chan struct{})
 		var pw sync.WaitGroup
 		n := r.N(3000, 9000)
+		base := parkedCount.Load()
 		for i := 0; i < n; i++ {
 			pw.Add(1)
 			go func(d int) { defer pw.Done(); parkDeep(d, park, 0xc000000000, 7) }(8 + i%20)
 		}
-		size := len(captureAll())
+		// every goroutine is blocked at its full depth and two successive dumps have the same size: the dump the
+		// handler captures can only differ by the few goroutines serving the request (margin 64 KiB).
+		size := waitParked(base, int64(n))
 		for size < 1<<20+1<<16 { // make sure the dump really exceeds 1 MiB
 			for i := 0; i < 500; i++ {
 				pw.Add(1)
 				go func(d int) { defer pw.Done(); parkDeep(d, park, 0xc000000000, 7) }(8 + i%20)
 			}
-			runtime.Gosched()
-			size = len(captureAll())
+			n += 500
+			size = waitParked(base, int64(n))
 		}
 		r.Set("large_dump_bytes", size)
-		mms := []int{size + size/3, size + 8192}
+		mms := []int{size + size/3, size + 65536}
 		if !r.Quick() {
 			mms = append(mms, 3*size+12345, 64<<20, 2*size-1)
 		}
@@ -330,7 +335,7 @@ func runC20(r *core.Run) {
 			headers, _ := strconv.Atoi(resp.Header.Get("X-Verif-Headers"))
 			sum, _ := bucketSizes(body)
 			if resp.StatusCode != 200 || sum != headers || headers < n {
-				r.Violation("large-dump-maxmem", fmt.Sprintf("process with a %d-byte dump (%d parked goroutines), GET ?%s (sufficient maxmem): status %d, page accounts for %d goroutines, captured dump has %d headers; capture error: %q", size, n, q, resp.StatusCode, sum, headers, resp.Header.Get("X-Verif-Err")), "req", reqSpec{Method: "GET", Query: q, Valid: true})
+				r.Violation("large-dump-maxmem", fmt.Sprintf("process with a %d-byte dump (%d parked goroutines), GET ?%s (sufficient maxmem): status %d, page accounts for %d goroutines, captured dump has %s bytes and %d headers; capture error: %q", size, n, q, resp.StatusCode, sum, resp.Header.Get("X-Verif-RawLen"), headers, resp.Header.Get("X-Verif-Err")), "req", reqSpec{Method: "GET", Query: q, Valid: true})
 			}
 			r.Count("large_dump_requests", 1)
 		}
